@@ -172,6 +172,12 @@ def record_misc(tier):
                         # negative exponents in bases that are not powers of two: no double holds the result
                         (1, -1, 10), (-3, -2, 10), (7, -3, 10), (1, -2, 3), (5, -1, 6), (-2, -3, 5), (123, -4, 10)):
             cases.append((f'fp.digits({m}, {e}, {b})', Fraction(m) * Fraction(b) ** e))
+        # negation written on a literal: the sign of a zero counts (1 / -(-0.0) is +inf)
+        negz = {}
+        for lit, q, nz in (('-(-0.0)', 0, False), ('- -0.0', 0, False), ('-(-0)', 0, False), ('-(-(-0.0))', 0, True), ('-(0.0)', 0, True),
+                           ('-(-1.5)', Fraction(3, 2), False), ('-(-(-2))', -2, False), ('+(-0.0)', 0, True), ('-(+0.0)', 0, True)):
+            cases.append((lit, Fraction(q)))
+            negz[lit] = nz
         for i, (lit, q) in enumerate(cases):
             name = f'misc{i}'
             funcs, rej = gen_prog.load_programs({name: f'@fp.fpy\ndef {name}():\n    return {lit}'}, work, f'c06m_{i}')
@@ -181,7 +187,7 @@ def record_misc(tier):
             except Exception as e:      # noqa: BLE001
                 out = {'err': type(e).__name__}
             recs.append({'kind': 'ratio', 'sp': [], 'py_ok': True, 'spelling': lit,
-                         'exp': {'s': 1 if q < 0 else 0, 'n': abs(q.numerator), 'd': q.denominator}, 'out': out})
+                         'exp': {'s': 1 if (q < 0 or negz.get(lit)) else 0, 'n': abs(q.numerator), 'd': q.denominator}, 'out': out})
         ctxs = [fp.MPFloatContext(2), fp.MPFloatContext(3, fp.RM.RTZ), fp.MPFixedContext(-2, fp.RM.RAZ), fp.IEEEContext(3, 6, fp.RM.RTN),
                 fp.MPSFloatContext(3, -1, fp.RM.RNA)]
         lits = ['0.1', '0.3', '1.1', '2.5', '0.375', '7.75', '1e1', '12.5e-1', '0.0625', '3', '1e2', '-0.3', '.7', '5e-1']
